@@ -39,10 +39,12 @@ import coremodel
 import coreprop
 import impl
 import lib
+import dispatchtie
 import universe
 from lib import coq_bool, coq_list, coq_nat, coq_pair
 
 COQ_TARGETS = ["theories/Props/C01.vo", "theories/Model/CoreTables.vo"]
+COQ_TARGETS = COQ_TARGETS + [t for t in dispatchtie.COQ_TARGETS if t not in COQ_TARGETS]
 THEOREMS = ["C01_roundtrip", "C01_union_fixpoint", "C01_keys_of_leaf_law", "C01_fuel_unm", "C01_fuel_mar",
             "C01_refuted_full", "C01_refuted_union_foreign_marshaller", "C01_refuted_fixpoint_noncanonical"]
 UTC = D.timezone.utc
@@ -1350,6 +1352,8 @@ def correspond(run: lib.Run):
                                         values_per_root=run.budget(2, 3), value_depth=3)
     run._c01 = (groups, records)
     bad = coreprop.correspond_core(run, groups, "c01")
+    # marshaller and unmarshaller classes chosen for every head pair up (Dispatch_pairs, on the live _HANDLERS tables)
+    lib.run_tie(run, dispatchtie, streams=False, core=True, groups=groups, tag="c01")
     run._c01_bad = bad
     # hypotheses of the theorem on the generated (T, v)
     codes = hypotheses_in_coq(run, groups, records)
